@@ -66,7 +66,8 @@ theorem parseRequestLine_ok (h : ReqHead) (wf : WFReq h) :
   obtain ⟨_, _, _, m4, _⟩ := method_facts _ hm
   obtain ⟨_, _, v3, _⟩ := verText_facts _ hv
   unfold parseRequestLine
-  have : ¬ (requestLine h).length > HttpLists.maxRequestLineLength := by omega
+  have : ¬ (requestLine h).length > HttpLists.maxRequestLineLength := by
+    have := maxLine_le_request; omega
   rw [if_neg this, hs]
   simp only [v3, m4]
   rcases hv with e | e <;> simp [e]
